@@ -148,6 +148,11 @@ let run (ws : string list) : string =
     let ((w, _), out) = Prog.run_prog fuel (parse_ms ms) objs (parse_bodies bodies) (parse_script script) (n_of_string rseed) in
     let evs = Stdlib.List.rev_map show_event w.Exec.w_trace in
     String.concat " " (evs @ ["T=" ^ show_outcome out; "S=" ^ show_sched w.Exec.w_e.Exec.recorded])
+  | ["timelimit"; budget; bits; objs; bodies] ->
+    (* bits: one character per clock reading, 1 = the limit was found expired *)
+    let expired = Stdlib.List.init (String.length bits) (fun i -> bits.[i] = '1') in
+    let objs = Stdlib.List.mapi parse_obj (split_on ',' objs) in
+    "N=" ^ string_of_int (int_of_nat (Prog.prog_count_t expired (nat_of_int (int_of_string budget)) fuel objs (parse_bodies bodies)))
   | ["progdfs"; ms; mi; allow; objs; bodies] ->
     let cap = 3000 in
     let mi = if mi = "-" then cap else min (int_of_string mi) cap in
